@@ -200,6 +200,7 @@ class Built:
         self.top = None
         self.registry = DurationRegistry()
         self.reg_keys: List[str] = []
+        self.lost_label: Optional[str] = None
 
     def leaves(self) -> List[Node]:
         out = []
@@ -333,7 +334,7 @@ def build_circuit(ctx, prog: dict, built: Built, path=(), relation=None, parent:
             node.children = children
             node.obj = circuit.add(sub_circuit)
             # the content of the parent is a *copy*: map the records of the children onto the copied operations
-            remap_children(node, node.obj)
+            remap_children(node, node.obj, ctx, built.lost_label)
         else:
             op = _make_leaf(ctx, node, circuit, rel, built)
             node.obj = circuit.add(op)
@@ -366,8 +367,10 @@ class HarnessMappingError(Exception):
     pass
 
 
-def remap_children(node: Node, copied: CircuitCompositeOperation):
-    """After `node.obj` was replaced by a copy, point the children's records at the copied operations."""
+def remap_children(node: Node, copied: CircuitCompositeOperation, ctx=None, lost_label=None):
+    """After `node.obj` was replaced by a copy, point the children's records at the copied operations.  A step without counterpart in
+    the copy is a harness error, unless the calling harness asserts completeness of the copy itself (`lost_label`): then it is
+    recorded as a violation of that clause first."""
     copies = composite_children(copied)
     used = set()
     for child in node.children:
@@ -385,17 +388,21 @@ def remap_children(node: Node, copied: CircuitCompositeOperation):
                 found = j
                 break
         if found is None:
+            if ctx is not None and lost_label:
+                ctx.check(lost_label, False, {'step': child.label(), 'kind': child.kind if not child.is_sub else 'S', 'copied_children': [type(c).__name__ for c in copies],
+                                              'expected_children': len(node.children)})
             raise HarnessMappingError(f"copied sub-circuit has no counterpart of step {child.label()}")
         used.add(found)
         child.obj = copies[found]
         if child.is_sub:
-            remap_children(child, child.obj)
+            remap_children(child, child.obj, ctx, lost_label)
 
 
-def build(ctx, prog: dict, share_links: bool = False, dur_pool: int = 0) -> Built:
+def build(ctx, prog: dict, share_links: bool = False, dur_pool: int = 0, lost_label: Optional[str] = None) -> Built:
     built = Built()
     built.share_links = share_links
     built.dur_pool = dur_pool
+    built.lost_label = lost_label
     circuit, nodes = build_circuit(ctx, prog, built)
     built.circuit = circuit
     built.nodes = nodes
